@@ -10,6 +10,7 @@ import json
 import os
 import re
 import subprocess
+import sys
 import tomllib
 
 VERIF = os.path.dirname(os.path.dirname(os.path.abspath(__file__)))
@@ -307,6 +308,47 @@ def r44_guard_continue(src, item, ed, opts):
             ed.replace(n["then"][0], n["then"][1], "{ } else {", "R44")
             ed.insert(lp["body"][1] - 1, " }", "R44", prio=-10)
             ed.count("R44")
+
+
+def loop_vars(ls, n, src):
+    """`$pat` in a loop's ghost text stands for the variable the `for` pattern binds (`$pat0`, `$pat1`, .. for the
+    components of a tuple pattern): the sidecar then survives a renaming of the loop variable"""
+    if n.get("loop_kind") != "for":
+        return ls
+    pat = src.text(*n["pat"]).strip()
+    one = r"(?:&\s*)?(?:ref\s+)?(?:mut\s+)?(\w+)"
+    names = {}
+    m = re.fullmatch(one, pat)
+    if m:
+        names["$pat"] = m.group(1)
+    elif pat.startswith("(") and pat.endswith(")"):
+        for i, part in enumerate(pat[1:-1].split(",")):
+            mm = re.fullmatch(one, part.strip())
+            if mm:
+                names[f"$pat{i}"] = mm.group(1)
+    if os.environ.get("VX_LINT"):
+        for k, v in ls.items():
+            for nm in names.values():
+                if isinstance(v, str) and k not in ("over", "kind", "iter") and re.search(r"(?<![\w$.])" + re.escape(nm) + r"\b(?!\()", v):
+                    sys.stderr.write(f"VX_LINT loop hint `{k}` names the loop variable `{nm}` literally: {v.strip()[:80]!r}\n")
+    out = {}
+    for k, v in ls.items():
+        if isinstance(v, str) and "$pat" in v:
+            for ph in sorted(names, key=len, reverse=True):
+                v = v.replace(ph, names[ph])
+            if "$pat" in v:
+                raise Unsupported(f"loop pattern `{pat}` does not bind what the sidecar's `$pat` refers to")
+        out[k] = v
+    return out
+
+
+def param_vars(text, cl, src):
+    """`$param0`, `$param1`, .. in `param_let` stand for the closure's parameter patterns as written"""
+    if cl is None:
+        return text
+    for i, p in enumerate(cl.get("inputs", [])):
+        text = text.replace(f"$param{i}", src.text(*p["range"]))
+    return text
 
 
 def r9_visibility(src, item, ed, opts):
@@ -1413,6 +1455,7 @@ def extract_fn(src, spec, unit_rules):
             if k >= len(loops):
                 raise LostAnchor(f"loop #{k} of {spec['path']} (function has {len(loops)} loops)")
             n = loops[k]
+        ls = loop_vars(ls, n, src)
         if ls.get("kind") and ls["kind"] != n["loop_kind"]:
             raise LostAnchor(f"loop #{k} of {spec['path']} is a `{n['loop_kind']}`, sidecar expects `{ls['kind']}`")
         if ls.get("before"):
@@ -1542,6 +1585,7 @@ def extract_arm(src, spec, unit_rules):
             if k >= len(loops):
                 raise LostAnchor(f"loop #{k} of arm {spec['arm']}")
             n = loops[k]
+        ls = loop_vars(ls, n, src)
         if ls.get("before"):
             ed.insert(n["range"][0], ls["before"].strip() + "\n", "ghost")
         if ls.get("iter") and n["loop_kind"] == "for":
@@ -1728,6 +1772,7 @@ def extract_closure(src, spec, unit_rules):
             if kk >= len(loops):
                 raise LostAnchor(f"loop #{kk} of closure #{k} of {spec['path']}")
             n = loops[kk]
+        ls = loop_vars(ls, n, src)
         if ls.get("before"):
             ed.insert(n["range"][0], ls["before"].strip() + "\n", "ghost")
         if ls.get("iter") and n["loop_kind"] == "for":
@@ -1769,7 +1814,7 @@ def extract_closure(src, spec, unit_rules):
     ret = spec.get("ret", "r")
     text = (
         f"pub fn {spec['name']}{spec.get('generics', '')}({spec['params']}) -> ({ret}: {spec['ret_ty']})" + contract + "\n{\n"
-        + (spec.get("param_let", "").strip() + "\n" if spec.get("param_let") else "")
+        + (param_vars(spec.get("param_let", ""), cl, src).strip() + "\n" if spec.get("param_let") else "")
         + (spec.get("body_start", "").strip() + "\n" if spec.get("body_start") else "")
         + inner + "\n}\n"
     )
